@@ -8,6 +8,5 @@ func init() {
 		"a plain End's end time is judged as a reading of the clock taken during the run with one hour of slack on either side",
 		"provider life cycle: delivery is decided as exactly once only for spans all of whose End calls had returned before TracerProvider.Shutdown was first issued; a span ended while or after Shutdown runs is judged at most once (plus: not recording once End has returned, an end time that an End call supplied)",
 		"shared_args judges a span that only one goroutine touches against the same calls made alone with private arguments on the same provider; link attribute slices are lent but not overwritten after the call (a trace.Link is kept as given; whether its attribute slice may alias the caller's memory the statement does not say)",
-		"shared_args does not lend a shared option slice with spare capacity to RecordError: on the pinned tree RecordError appends to the variadic slice it was given, a data race between goroutines working on different spans (proposed KF-C10-recorderror-appends-to-lent-options; harness/c10/testdata/recorderror-lent-options-race.json replays it) and a race report would stop every run",
 	))
 }
